@@ -41,6 +41,11 @@ GEN_Cfgs == Mk(ZeroOk, {3}, {2, 3}, Deltas, <<1, 4>>, 3)
             \cup Mk({"OGD"}, {2}, {0}, Deltas \cup {<<3, 1>>}, <<1, 4>>, 5)
             \cup Mk({"ADA"}, {2}, {0}, Deltas, <<1, 4>>, 3)
 GEN_Masses == {0, 1, 4}
+\* thorough exhaustive part: the same to depth 4
+GENT_Cfgs == Mk(ZeroOk, {3}, {2, 3}, Deltas, <<1, 4>>, 4)
+            \cup Mk(Sketched \ ZeroOk, {3}, {2, 3}, PosDeltas, <<1, 2>>, 4)
+            \cup Mk({"OGD"}, {2}, {0}, Deltas \cup {<<3, 1>>}, <<1, 4>>, 5)
+            \cup Mk({"ADA"}, {2}, {0}, Deltas, <<1, 4>>, 4)
 GEN_GVals  == {-2, 0, 1}
 \* sampled part (tlc -simulate): d = 4 and 5, sketch sizes 2..4, histories of length 5 (6)
 GENS_Cfgs == Mk(ZeroOk, {4, 5}, {2, 3, 4}, Deltas \cup PosDeltas, <<1, 4>>, 6)
